@@ -91,7 +91,7 @@ def prepare(tier, schema, farm_name, options=None, want_docs=None):
         e["gen"] = r["status"]
         e["gen_msg"] = r.get("msg")
         if r["status"] == "ok" and not e["errs"]:
-            c = Case(r["tokens"], [("op", "Op")], prelude="pub type Date = String; pub type Zoned = String; pub type date_time = String; pub type DateTime = String;")
+            c = Case(r["tokens"], [("op", "Op")], prelude="pub type Date = String; pub type Zoned = String; pub type date_time = String; pub type DateTime = String; pub type _Any = String; pub type Any = String;")
             e["case"] = farm.add(c)
         else:
             e["case"] = None
